@@ -644,6 +644,11 @@ def task_volume(ctx, n, depth):
 
 
 def tasks(tier):
+    from .. import depth
+    return _tasks(tier) + [("little-stack", depth.task, dict(prop=PROPERTY))]
+
+
+def _tasks(tier):
     if tier == "quick":
         return [("density-a", task_density, dict(n=500, depth=2)),
                 ("density-b", task_density, dict(n=500, depth=3)),
@@ -674,6 +679,9 @@ EXHAUSTIVE_NOTE = ("the single-atom default is swept over every element, isotope
 
 
 def replay(ctx, case):
+    if isinstance(case, dict) and case.get("kind") == "little-stack":
+        from .. import depth
+        return depth.check(ctx, case)
     kind = case["kind"]
     fn = {"density": check_density, "single": check_single, "replace": check_replace, "volume": check_volume,
           "group-tag": check_group_tag}[kind]
